@@ -170,16 +170,23 @@ End C05Instance.
 
 Import C05Instance.
 
-(** The hypotheses of [simple_is_view] hold for one record: the raw iteration
-    succeeds, the limits are usable, the index records are integers, the point
-    returned and the point left in the queues (point 2, whose invalid state came
-    with the first packet... its coordinates did not, so it is not complete and
-    not left over) are in set. *)
+(** The hypotheses of [simple_is_view] hold for [records = 1]: the raw iteration
+    succeeds with point 1, the limits are usable, the index records are
+    integers, point 1 is in set, and nothing complete is left in the queues
+    (only the first packet is read; it carries the invalid states of all three
+    points but the coordinates of the first only). *)
 Example C05_instance_hypotheses :
   raw_run 1 = Ok (firstn 1 pts) /\
   is_ok (prepare_ranges (pc 1)) = true /\ index_records_are_integers (pc 1) = true /\
-  forallb (invalid_states_in_set (pc 1)) (firstn 2 pts) = true.
-Proof. repeat split; vm_compute; reflexivity. Qed.
+  forallb (invalid_states_in_set (pc 1)) (firstn 1 pts) = true /\
+  match snd (rrun_spec log (raw_read_all_st 10 (len log) (pc 1)) 0) with
+  | Ok (raws, itf) => (length raws =? 1)%nat && (length (leftover itf) =? 0)%nat
+  | _ => false
+  end = true.
+Proof.
+  split; [vm_compute; reflexivity|]. split; [vm_compute; reflexivity|]. split; [vm_compute; reflexivity|].
+  split; vm_compute; reflexivity.
+Qed.
 
 (** ... and for all 64 option vectors the simple iterator returns the views of the raw points *)
 Example C05_instance_all_options :
